@@ -75,7 +75,7 @@ func histExec(c core.Case) core.Case {
 		// properties speak about then are Reset and a non-merging Unmarshal (C15).  Everything else
 		// that would read a dirty object is skipped (the specification skips it too).
 		if (o.dirty && !(op == "reset" || (op == "unmarshal" && !core.Bool(s["merge"])))) ||
-			((op == "merge" || op == "equal") && o2.dirty) {
+			((op == "merge" || op == "equal" || op == "cat" || op == "umerge") && o2.dirty) {
 			op = "skip"
 		}
 		switch op {
@@ -173,6 +173,27 @@ func histExec(c core.Case) core.Case {
 		case "clone": // o2 = Clone(o)
 			o2.m = proto.Clone(o.m.Interface()).ProtoReflect()
 			o2.dirty, o2.lz = false, o.lz
+		case "cat": // o3 := Unmarshal(Marshal(o) ++ Marshal(o2))   (C07: concatenation = merge)
+			o3 := objs[core.Int(s["o3"])]
+			b1, err1 := proto.MarshalOptions{AllowPartial: true, Deterministic: core.Bool(s["det"])}.Marshal(o.m.Interface())
+			b2, err2 := proto.MarshalOptions{AllowPartial: true}.Marshal(o2.m.Interface())
+			if err1 != nil || err2 != nil {
+				r = "utf8"
+				break
+			}
+			err := proto.UnmarshalOptions{AllowPartial: true, NoLazyDecoding: core.Bool(s["nolazy"])}.Unmarshal(append(append([]byte{}, b1...), b2...), o3.m.Interface())
+			r = errClass(err)
+			o3.dirty, o3.lz = false, !core.Bool(s["nolazy"])
+		case "umerge": // UnmarshalOptions{Merge: true}.Unmarshal(Marshal(o2), o)
+			b2, err2 := proto.MarshalOptions{AllowPartial: true}.Marshal(o2.m.Interface())
+			if err2 != nil {
+				r = "utf8"
+				break
+			}
+			err := proto.UnmarshalOptions{AllowPartial: true, Merge: true, NoLazyDecoding: core.Bool(s["nolazy"])}.Unmarshal(b2, o.m.Interface())
+			r = errClass(err)
+		case "scribble": // overwrite, in place, the backing arrays of all bytes values reachable from o (C14)
+			scribble(o.m)
 		case "equal":
 			r = proto.Equal(o.m.Interface(), o2.m.Interface())
 		case "checkinit":
@@ -197,7 +218,18 @@ func histExec(c core.Case) core.Case {
 			chk += reflectContract(x.m)
 		}
 	}
-	return core.Case{"obs": obs, "chk": chk}
+	out := core.Case{"obs": obs, "chk": chk}
+	if n := len(obs); n > 0 { // the last step's observation, for tour lines that only predict that step
+		last := obs[n-1].(map[string]any)
+		out["lobjs"], out["lr"] = last["objs"], last["r"]
+		if sz, ok := last["r"].([]any); ok && len(sz) == 3 {
+			out["lsize"] = sz[0]
+		}
+		if mr, ok := last["r"].(map[string]any); ok {
+			out["lerr"] = mr["err"]
+		}
+	}
+	return out
 }
 
 func exactBytes(b []byte) []byte {
@@ -291,4 +323,42 @@ func reflectContract(m protoreflect.Message) string {
 		}
 	}
 	return sb.String()
+}
+
+// scribble flips, in place, every byte of every bytes value of the message tree.  An object that
+// shares a backing array with this one (after Clone or Merge) changes with it: that is the alias.
+func scribble(m protoreflect.Message) {
+	flip := func(b []byte) {
+		for i := range b {
+			b[i] ^= 0xff
+		}
+	}
+	m.Range(func(fd protoreflect.FieldDescriptor, v protoreflect.Value) bool {
+		switch {
+		case fd.IsMap():
+			vf := fd.MapValue()
+			v.Map().Range(func(k protoreflect.MapKey, mv protoreflect.Value) bool {
+				if vf.Kind() == protoreflect.BytesKind {
+					flip(mv.Bytes())
+				} else if vf.Message() != nil {
+					scribble(mv.Message())
+				}
+				return true
+			})
+		case fd.IsList():
+			l := v.List()
+			for i := 0; i < l.Len(); i++ {
+				if fd.Kind() == protoreflect.BytesKind {
+					flip(l.Get(i).Bytes())
+				} else if fd.Message() != nil {
+					scribble(l.Get(i).Message())
+				}
+			}
+		case fd.Kind() == protoreflect.BytesKind:
+			flip(v.Bytes())
+		case fd.Message() != nil:
+			scribble(v.Message())
+		}
+		return true
+	})
 }
